@@ -626,10 +626,8 @@ func (s *session) verifySelect(msg *Message, checkTooHigh bool, checkTooLow bool
 		return reject
 	}
 
-	switch s.stateMachine.State.(type) {
-	case resendState:
-		//Don't check staleness of a replay
-	default:
+	if _, resending := s.currentResendState(); !resending {
+		// Don't check staleness of a replay.
 		if reject := s.checkSendingTime(msg); reject != nil {
 			return reject
 		}
@@ -651,6 +649,17 @@ func (s *session) verifySelect(msg *Message, checkTooHigh bool, checkTooLow bool
 	}
 
 	return nil
+}
+
+// currentResendState returns the resend state the session is in, also when a test request
+// is pending on top of it (pendingTimeout wraps the state it interrupted).
+func (s *session) currentResendState() (resendState, bool) {
+	state := s.stateMachine.State
+	if pending, ok := state.(pendingTimeout); ok {
+		state = pending.sessionState
+	}
+	rs, ok := state.(resendState)
+	return rs, ok
 }
 
 func (s *session) verifyMsgAgainstAppImpl(msg *Message) MessageRejectError {
